@@ -23,7 +23,8 @@
 EXTENDS Integers, Sequences, FiniteSets, SequencesExt, TLC
 
 CONSTANTS Lens,        \* lengths of the pseudo-random nonces "r1" (quick: edge lengths, thorough: 0..64)
-          EdgeLens     \* lengths of the repeated-byte nonces
+          EdgeLens,    \* lengths of the repeated-byte nonces
+          DevAppendLocalNonce   \* deviation (FALSE in the design): setting the local nonce appends to the stored one
 
 Policies == {"Basic128Rsa15", "Basic256", "Basic256Sha256", "Aes128Sha256RsaOaep", "Aes256Sha256RsaPss"}
 
@@ -47,7 +48,21 @@ Nonces == {Mk(l, "r1") : l \in Lens}
 \* the HMAC key a nonce denotes (trailing zero bytes do not matter, all nonces are <= 64 bytes = block size)
 KeyNorm(n) == IF n.fill = "zero" THEN Mk(0, "zero") ELSE n
 
-Cases == {[pol |-> p, cn |-> a, sn |-> b] : p \in Policies, a \in Nonces, b \in Nonces}
+\* single derivations on fresh channel objects
+OneCases == {[kind |-> "one", pol |-> p, cn |-> a, sn |-> b] : p \in Policies, a \in Nonces, b \in Nonces}
+
+(* sequences of exchanges on ONE pair of channel objects: issue, then one or two renewals, each with a fresh   *)
+(* nonce pair of the policy's SecureChannelNonceLength (Part 7).  "srvrand" = the server end generates its    *)
+(* nonce itself (create_random_nonce) and the client is given whatever it generated.                          *)
+NonceLen(p) == IF p = "Basic128Rsa15" THEN 16 ELSE 32
+Pairs(p) == LET L == NonceLen(p)
+            IN {[cn |-> Mk(L, "r1"), sn |-> Mk(L, "r2")], [cn |-> Mk(L, "r3"), sn |-> Mk(L, "r4")],
+                [cn |-> Mk(L, "r2"), sn |-> Mk(L, "r1")], [cn |-> Mk(L, "r5"), sn |-> Mk(L, "srvrand")]}
+SeqCases == UNION {{[kind |-> "seq", pol |-> p, ex |-> <<a, b>>] : a \in Pairs(p), b \in Pairs(p)}
+                    \cup {[kind |-> "seq", pol |-> p, ex |-> <<a, b, d>>] : a \in Pairs(p), b \in Pairs(p), d \in Pairs(p)}
+                   : p \in Policies}
+
+Cases == OneCases \cup SeqCases
 
 -----------------------------------------------------------------------------
 (* terms *)
@@ -84,9 +99,9 @@ Derive(p, role) ==
 
 \* nonce pairs a case is compared with for "different nonces give different keys"
 Alts(n) == {Mk(n.len, "r2"), Mk(IF n.len = 32 THEN 16 ELSE 32, n.fill), Mk(IF n.len > 0 THEN n.len - 1 ELSE 1, n.fill)} \ {n}
-Others(c) == ({[pol |-> c.pol, cn |-> c.sn, sn |-> c.cn]}
-              \cup {[pol |-> c.pol, cn |-> a, sn |-> c.sn] : a \in Alts(c.cn)}
-              \cup {[pol |-> c.pol, cn |-> c.cn, sn |-> a] : a \in Alts(c.sn)}) \ {c}
+Others(c) == ({[kind |-> "one", pol |-> c.pol, cn |-> c.sn, sn |-> c.cn]}
+              \cup {[kind |-> "one", pol |-> c.pol, cn |-> a, sn |-> c.sn] : a \in Alts(c.cn)}
+              \cup {[kind |-> "one", pol |-> c.pol, cn |-> c.cn, sn |-> a] : a \in Alts(c.sn)}) \ {c}
 
 SlotNames == <<"cs", "ce", "ci", "ss", "se", "si">>
 SlotTerm(p, n) == CASE n = "cs" -> Table33(p, "C").sign [] n = "ce" -> Table33(p, "C").enc [] n = "ci" -> Table33(p, "C").iv
@@ -101,6 +116,35 @@ DesignHolds(c) ==
   /\ \A q \in Others(c) : \E i \in 1..6 : ~TermEq(c, SlotTerm(c.pol, SlotNames[i]), q, SlotTerm(q.pol, SlotNames[i]))
 
 -----------------------------------------------------------------------------
+(* The two channel objects over a sequence of exchanges.  An end stores its local and its remote nonce (here:   *)
+(* the sequence of abstract nonces whose concatenation it holds) and derives from what it stores; terms carry   *)
+(* the stored VALUES.  Per exchange the client does  set_local_nonce(cn); set_remote_nonce(sn); derive_keys,    *)
+(* the server  set_remote_nonce(cn); set_local_nonce(sn) / create_random_nonce; derive_keys.                    *)
+SetLocal(e, n) == [e EXCEPT !.local = IF DevAppendLocalNonce THEN @ \o <<n>> ELSE <<n>>]
+SetRemote(e, n) == [e EXCEPT !.remote = <<n>>]
+DeriveEnd(p, e) == [e EXCEPT !.keys = [local |-> Make(p, e.remote, e.local), remote |-> Make(p, e.local, e.remote)]]
+Fresh == [local |-> <<>>, remote |-> <<>>, keys |-> <<>>]
+
+Exchange(p, st, x) == [cli |-> DeriveEnd(p, SetRemote(SetLocal(st.cli, x.cn), x.sn)),
+                       srv |-> DeriveEnd(p, SetLocal(SetRemote(st.srv, x.cn), x.sn))]
+RECURSIVE RunSeq(_, _, _)
+RunSeq(p, st, xs) == IF xs = <<>> THEN <<>>
+                     ELSE LET st1 == Exchange(p, st, Head(xs)) IN <<st1>> \o RunSeq(p, st1, Tail(xs))
+
+(* history independence: after EVERY exchange both ends hold exactly the Table 33 keys of the nonces of THAT    *)
+(* exchange (so the securing keys of one end are the verifying keys of the other)                               *)
+SeqHolds(c) ==
+  LET run == RunSeq(c.pol, [cli |-> Fresh, srv |-> Fresh], c.ex)
+  IN \A i \in 1..Len(c.ex) :
+       LET x == c.ex[i]
+           ck == Make(c.pol, <<x.sn>>, <<x.cn>>)      \* Table 33 client keys: secret = server nonce, seed = client nonce
+           sk == Make(c.pol, <<x.cn>>, <<x.sn>>)
+       IN /\ run[i].cli.keys = [local |-> ck, remote |-> sk]
+          /\ run[i].srv.keys = [local |-> sk, remote |-> ck]
+
+Holds(c) == IF c.kind = "one" THEN DesignHolds(c) ELSE SeqHolds(c)
+
+-----------------------------------------------------------------------------
 (* L2: the judge.  r.mk = keys from SecurityPolicy::make_secure_channel_keys for both directions,           *)
 (* r.cli / r.srv = keys held by a client-role / server-role SecureChannel after derive_keys, each key       *)
 (* mapped back to a term by the harness ("none" = not a P_SHA output of these nonces);                      *)
@@ -108,26 +152,37 @@ DesignHolds(c) ==
 (* r.others[i].same[slot] = the real key bytes of this case and of the other nonce pair are equal.          *)
 Bad(c, got, want) == ~KeysEq(c, got, c, want)
 
-KeyViol(e) ==
-  LET c == e.c
-      r == e.r
-  IN IF r.fail # "none" THEN {"keys-not-derived:" \o r.site}
+\* the clauses of one exchange: x = [pol, cn, sn] of that exchange, r = the keys both ends hold after it
+EndsViol(x, r, tag) ==
+     (IF Bad(x, r.cli.local, Table33(x.pol, "C")) \/ Bad(x, r.cli.remote, Table33(x.pol, "S"))
+      THEN {"client-role-keys-not-the-Table33-P_SHA-terms" \o tag} ELSE {})
+     \cup (IF Bad(x, r.srv.local, Table33(x.pol, "S")) \/ Bad(x, r.srv.remote, Table33(x.pol, "C"))
+           THEN {"server-role-keys-not-the-Table33-P_SHA-terms" \o tag} ELSE {})
+     \cup (IF ~r.agree.c2s \/ ~r.agree.s2c THEN {"securing-keys-of-one-end-differ-from-verifying-keys-of-the-other" \o tag} ELSE {})
+     \cup (IF r.wire.c2s # "ok" \/ r.wire.s2c # "ok" THEN {"chunk-secured-by-one-end-rejected-by-the-other" \o tag} ELSE {})
+
+OneViol(c, r) ==
+     IF r.fail # "none" THEN {"keys-not-derived:" \o r.site}
      ELSE (IF Bad(c, r.mk.client, Table33(c.pol, "C")) \/ Bad(c, r.mk.server, Table33(c.pol, "S"))
            THEN {"make_secure_channel_keys-not-the-Table33-P_SHA-terms"} ELSE {})
-     \cup (IF Bad(c, r.cli.local, Table33(c.pol, "C")) \/ Bad(c, r.cli.remote, Table33(c.pol, "S"))
-           THEN {"client-role-keys-not-the-Table33-P_SHA-terms"} ELSE {})
-     \cup (IF Bad(c, r.srv.local, Table33(c.pol, "S")) \/ Bad(c, r.srv.remote, Table33(c.pol, "C"))
-           THEN {"server-role-keys-not-the-Table33-P_SHA-terms"} ELSE {})
-     \cup (IF ~r.agree.c2s \/ ~r.agree.s2c THEN {"securing-keys-of-one-end-differ-from-verifying-keys-of-the-other"} ELSE {})
-     \cup (IF r.wire.c2s # "ok" \/ r.wire.s2c # "ok" THEN {"chunk-secured-by-one-end-rejected-by-the-other"} ELSE {})
+     \cup EndsViol(c, r, "")
      \cup (IF \E i \in 1..Len(r.others) :
                LET o == r.others[i]
                IN \/ \A j \in 1..6 : o.same[SlotNames[j]]
                   \/ \E j \in 1..6 : o.same[SlotNames[j]] /\ ~TermEq(c, SlotTerm(c.pol, SlotNames[j]), o.q, SlotTerm(o.q.pol, SlotNames[j]))
            THEN {"different-nonces-same-keys"} ELSE {})
 
+\* r.steps[i] = what both ends hold after exchange i of the sequence, on the same two channel objects
+SeqViol(c, r) ==
+     (IF r.fail # "none" THEN {"keys-not-derived:" \o r.site} ELSE {})
+     \cup UNION {EndsViol([pol |-> c.pol, cn |-> c.ex[i].cn, sn |-> c.ex[i].sn], r.steps[i],
+                          IF i = 1 THEN "" ELSE ":after-renewal") : i \in 1..Len(r.steps)}
+     \cup (IF r.fail = "none" /\ Len(r.steps) # Len(c.ex) THEN {"keys-not-derived:exchange-missing"} ELSE {})
+
+KeyViol(e) == IF e.c.kind = "one" THEN OneViol(e.c, e.r) ELSE SeqViol(e.c, e.r)
+
 \* expected observation (L1) printed with every case; drift is measured on the key terms only
 Expected(c) == [mk  |-> [client |-> Table33(c.pol, "C"), server |-> Table33(c.pol, "S")],
                 cli |-> Derive(c.pol, "C"), srv |-> Derive(c.pol, "S"),
-                others |-> SetToSeq(Others(c))]
+                others |-> IF c.kind = "one" THEN SetToSeq(Others(c)) ELSE <<>>]
 =============================================================================
